@@ -264,6 +264,42 @@ class SingleQubitUnitaryMatrix2RYRZTranspiler(GateDecomposer):
         ]
 
 
+def _two_qubit_circuit_matrix(
+    decomposed: Sequence[QuantumGate], q0: int, q1: int
+) -> npt.NDArray[np.complex128]:
+    """Matrix of a sequence of H, S, RX, RY, RZ and CNOT gates on the qubits q0
+    (least significant bit of the matrix index) and q1."""
+    h = np.array([[1, 1], [1, -1]], dtype=np.complex128) / np.sqrt(2)
+    s = np.array([[1, 0], [0, 1j]], dtype=np.complex128)
+    x = np.array([[0, 1], [1, 0]], dtype=np.complex128)
+    y = np.array([[0, -1j], [1j, 0]], dtype=np.complex128)
+    z = np.array([[1, 0], [0, -1]], dtype=np.complex128)
+    paulis = {gate_names.RX: x, gate_names.RY: y, gate_names.RZ: z}
+    p0 = np.array([[1, 0], [0, 0]], dtype=np.complex128)
+    p1 = np.array([[0, 0], [0, 1]], dtype=np.complex128)
+    id2 = np.identity(2, dtype=np.complex128)
+
+    def on(qubit: int, mat: npt.NDArray[np.complex128]) -> npt.NDArray[np.complex128]:
+        return np.kron(id2, mat) if qubit == q0 else np.kron(mat, id2)
+
+    ret = np.identity(4, dtype=np.complex128)
+    for g in decomposed:
+        target = g.target_indices[0]
+        if g.name == gate_names.CNOT:
+            control = g.control_indices[0]
+            m = on(control, p0) + on(control, p1) @ on(target, x)
+        elif g.name == gate_names.H:
+            m = on(target, h)
+        elif g.name == gate_names.S:
+            m = on(target, s)
+        else:
+            half = g.params[0] / 2.0
+            rot = math.cos(half) * id2 - 1j * math.sin(half) * paulis[g.name]
+            m = on(target, rot)
+        ret = m @ ret
+    return ret
+
+
 class TwoQubitUnitaryMatrixKAKTranspiler(GateDecomposer):
     """CircuitTranspiler, which decomposes two qubit UnitaryMatrix gates into
     gate sequences containing H, S, RX, RY, RZ, and CNOT gates.
@@ -280,6 +316,8 @@ class TwoQubitUnitaryMatrixKAKTranspiler(GateDecomposer):
             in QunaSys intern project.
     """
 
+    _validation_error: float = 1.0e-8
+
     def is_target_gate(self, gate: QuantumGate) -> bool:
         return gate.name == gate_names.UnitaryMatrix and len(gate.target_indices) == 2
 
@@ -287,7 +325,7 @@ class TwoQubitUnitaryMatrixKAKTranspiler(GateDecomposer):
         alpha, xi, xi_prime = su4_decompose(gate.unitary_matrix)
         q0, q1 = gate.target_indices
 
-        return [
+        decomposed = [
             gates.RZ(q1, xi[0][0]),
             gates.RY(q1, xi[0][1]),
             gates.RZ(q1, xi[0][2]),
@@ -312,3 +350,18 @@ class TwoQubitUnitaryMatrixKAKTranspiler(GateDecomposer):
             gates.RY(q0, xi_prime[1][1]),
             gates.RZ(q0, xi_prime[1][2]),
         ]
+
+        # The numerical decomposition can break down (e.g. for degenerate
+        # eigenvalues) without su4_decompose() noticing it.
+        u = np.array(gate.unitary_matrix, dtype=np.complex128)
+        v = _two_qubit_circuit_matrix(decomposed, q0, q1)
+        overlap = np.vdot(u, v)
+        if not (
+            abs(overlap) > 2.0
+            and np.all(np.abs(v - overlap / abs(overlap) * u) < self._validation_error)
+        ):
+            raise ValueError(
+                "The decomposition of the two qubit UnitaryMatrix gate failed."
+            )
+
+        return decomposed
